@@ -10,7 +10,7 @@ import (
 // level 1 = the extracted references recompute girth, blocks, articulation vertices and the
 // three count vectors too (exponential enumerations: small graphs only).
 func levelOf(g *gx.G) int {
-	if g.N <= 6 {
+	if g.N <= 7 {
 		return 1
 	}
 	return 0
@@ -51,13 +51,13 @@ func gen(g *hx.Gen) {
 			g.Emit(gx.CaseLine(gr, 1, toks))
 		})
 	}
-	top := g.Pick(4, 5)
+	top := g.Pick(5, 5)
 	for n := 4; n <= top; n++ {
 		gx.AllLabelled(n, func(gr *gx.G) { emit(gr, g.Pick(5, 9)) })
 	}
 	g.Exhaustive(fmt.Sprintf("all labelled graphs with n <= %d vertices (all vertex pairs, all length bounds -2..n+2)", top))
 
-	topc := g.Pick(6, 8)
+	topc := g.Pick(7, 8)
 	for n := 4; n <= topc; n++ {
 		nv := g.Pick(5, 20)
 		if n == 8 {
